@@ -171,7 +171,7 @@ static void gen_arrangement(Case &c, const Config &g, const std::vector<int> &er
     c.setv("present", present);
     c.setv("align", align);
 }
-static size_t len_cap() { return (size_t)opts().geti("maxlen", opts().tier == "thorough" ? (1 << 20) : (1 << 16)); }
+static size_t len_cap() { return (size_t)opts().geti("maxlen", 1 << 20); }     // both tiers reach 2^20 (about 1 case in 12 draws from the full range)
 
 static Case gen_c01() {
     Case c;
